@@ -80,6 +80,10 @@ def corpus_cases(tier, seed):
         yield ("corpus", {"inst": inst.as_json(), "tier": tier, "bound": 1 if tier == "quick" else 2})
 
 
+def _corpus_run(inst, data, want):
+    return run_instance(inst, max_exec=120 if data.get("tier") == "quick" else 2500, bound=data["bound"], want=tuple(w for w in want if w in ("C04", "C05")), well_posed=False, model=False, max_seconds=100 if data.get("tier") == "quick" else 900)
+
+
 def evaluate(pid, want, data, well_posed=None):
     res = new_result()
     inst = Instance.from_json(data["inst"])
@@ -89,7 +93,15 @@ def evaluate(pid, want, data, well_posed=None):
         stats, viols, dist = run_instance(inst, max_exec=MAX_EXEC[data.get("tier", "quick")], bound=data["dev_bound"], want=tuple(w for w in want if w != "C08"), well_posed=well_posed, model=True, max_seconds=MAX_SECONDS[data.get("tier", "quick")])
     elif "bound" in data:
         # deviation-bounded exploration of a full-size string: never exhaustive, no model comparison
-        stats, viols, dist = run_instance(inst, max_exec=120 if data.get("tier") == "quick" else 2500, bound=data["bound"], want=tuple(w for w in want if w in ("C04", "C05")), well_posed=False, model=False, max_seconds=100 if data.get("tier") == "quick" else 900)
+        try:
+            stats, viols, dist = _corpus_run(inst, data, want)
+        except MemoryError:
+            # a documented full-size string whose molecules outgrow the worker's address space: no verdict for this string
+            res["capped"] = True
+            res["capped_note"] = "documented full-size string: an execution outgrew the 4 GB worker limit; no verdict"
+            res["nontrivial"] = inst.name + "|memory"
+            res["sample"] = {"instance": inst.text, "executions": 0}
+            return res
         stats["capped"] = False
     else:
         stats, viols, dist = run_instance(inst, max_exec=MAX_EXEC[data.get("tier", "quick")], want=want, well_posed=well_posed, reuse=bool(data.get("reuse")), max_seconds=MAX_SECONDS[data.get("tier", "quick")])
